@@ -5,15 +5,15 @@ package world
 
 import (
 	"bytes"
-	mrand "math/rand"
-	"testing/cryptotest"
-	stdlog "log"
 	"fmt"
 	"io"
+	stdlog "log"
+	mrand "math/rand"
 	"os"
 	"strings"
 	"sync"
 	"testing"
+	"testing/cryptotest"
 	"testing/synctest"
 	"time"
 
@@ -34,12 +34,12 @@ type World struct {
 	halves        []*tcpHalf
 	netStarted    bool
 	netKick       chan struct{}
-	R     *core.Run
-	T     *core.Tape
-	FS    *core.FS
-	Sched *core.Sched
-	Root  string
-	Start time.Time
+	R             *core.Run
+	T             *core.Tape
+	FS            *core.FS
+	Sched         *core.Sched
+	Root          string
+	Start         time.Time
 
 	mu       sync.Mutex
 	ticks    map[string]int
@@ -50,12 +50,12 @@ type World struct {
 	tokSeq   int
 	Tokens   map[string]*SimToken
 	// TokenPlan is consulted by sim tokens for scripted outcomes.
-	TokenPlan func(tok *SimToken, op string, key string, n int) TokOutcome
-	Keys      map[string]*KeyMaterial // current generation by key label (default: key config name)
+	TokenPlan  func(tok *SimToken, op string, key string, n int) TokOutcome
+	Keys       map[string]*KeyMaterial // current generation by key label (default: key config name)
 	KeyHistory map[string][]*KeyMaterial
-	free      bool
-	Deadlock  string
-	listeners map[string]*Listener
+	free       bool
+	Deadlock   string
+	listeners  map[string]*Listener
 	// Debug, when set, receives verbose diagnostics (VERIF_DEBUG_STEPS).
 	Debug io.Writer
 }
@@ -146,6 +146,25 @@ func Run(r *core.Run, opt Options, body func(w *World)) (w *World) {
 			w.Sched = core.NewSched(func(n int, tag string) int { return r.T.Choose(n, tag) })
 			if opt.MaxSteps > 0 {
 				w.Sched.MaxStep = opt.MaxSteps
+			}
+			w.Sched.OnPanic = func(task string, p any, stack []byte) {
+				// a panic inside relic code reached from a harness task is a
+				// finding of its own, whatever the property
+				site := "harness"
+				for _, l := range strings.Split(string(stack), "\n") {
+					if strings.HasPrefix(l, "github.com/sassoftware/relic/v8/") && !strings.Contains(l, "/zz_verif/") {
+						site = strings.TrimPrefix(l, "github.com/sassoftware/relic/v8/")
+						if i := strings.LastIndex(site, "("); i > 0 {
+							site = site[:i]
+						}
+						break
+					}
+				}
+				if site == "harness" {
+					r.Notes["internal_error"] = fmt.Sprintf("harness task %s panicked: %v\n%s", task, p, stack)
+					return
+				}
+				r.Failf(r.Prop+".panic", site, "relic panicked in task %s: %v (at %s)", task, p, site)
 			}
 			w.Sched.Priority = r.SchedMode == "priority"
 			w.NetChoose = func(n int, tag string) int { return r.T.Choose(n, tag) }
